@@ -325,6 +325,53 @@ def benchmark_classes(repo):
     return out
 
 
+def r7_integer_powers(ctx, repo, classes):
+    """numpy integer arrays have 64 bits: IntArr ** IntArr with base and exponent both growing with the dimension wraps
+    around silently (16 ** 16 = 2**64 = 0 in int64), and a reciprocal of the result is inf.  Python ints and floats do not:
+    the same formula written with a loop over range() or with a float base is fine."""
+    n_pow = 0
+    for modname, cls in classes:
+        fn = cls.methods.get("evaluate")
+        if fn is None:
+            continue
+        kinds = {}      # local -> "intarr" when it is np.arange(..ints..) possibly shifted/indexed, with a bound that depends on the dimension
+
+        def dim_dep(e):
+            t = text(e)
+            return ".dimension" in t or ".size" in t or "len(" in t or ".shape" in t
+
+        def kind(e):
+            if isinstance(e, ast.Name):
+                return kinds.get(e.id)
+            if isinstance(e, ast.Call) and (access_path(e.func) or "") in ("np.arange", "numpy.arange") and not e.keywords and e.args \
+                    and not any(isinstance(c, ast.Constant) and isinstance(c.value, float) for a in e.args for c in ast.walk(a)):
+                return "intarr" if any(dim_dep(a) for a in e.args) else None
+            if isinstance(e, ast.Subscript):
+                return kind(e.value)
+            if isinstance(e, ast.BinOp) and isinstance(e.op, (ast.Add, ast.Sub, ast.Mult)):
+                l, r = kind(e.left), kind(e.right)
+                other = e.right if l else e.left
+                if (l or r) and not any(isinstance(c, ast.Constant) and isinstance(c.value, float) for c in ast.walk(other)) and \
+                        (kind(other) or isinstance(other, ast.Constant) or (isinstance(other, ast.Name) and other.id in int_locals)):
+                    return "intarr"
+            return None
+        int_locals = {s_.targets[0].id for s_ in ast.walk(fn) if isinstance(s_, ast.Assign) and len(s_.targets) == 1 and isinstance(s_.targets[0], ast.Name)
+                      and isinstance(s_.value, ast.Constant) and isinstance(s_.value.value, int)}
+        for s_ in stmts_of(fn):
+            if isinstance(s_, ast.Assign) and len(s_.targets) == 1 and isinstance(s_.targets[0], ast.Name):
+                k_ = kind(s_.value)
+                if k_:
+                    kinds[s_.targets[0].id] = k_
+        for pw in [n_ for n_ in ast.walk(fn) if isinstance(n_, ast.BinOp) and isinstance(n_.op, ast.Pow)]:
+            n_pow += 1
+            if kind(pw.left) == "intarr" and kind(pw.right) == "intarr":
+                ctx.violated("R7", "%s.evaluate" % cls.name, where(cls.module, pw), "%s raises one 64-bit integer array to another, and both grow with the dimension: the power wraps around without "
+                             "a warning once it reaches 2**63 (for dimension 16: 16 ** 16 = 2**64 -> 0), and what is computed from it (a reciprocal: inf) makes the cost non-finite at "
+                             "every point of the box, the documented optimum included" % text(pw), key="int-power:" + cls.name)
+                return
+    ctx.holds("R7", "benchmark evaluate() methods", "", "no power of one dimension-sized integer array by another (%d power expressions looked at)" % n_pow)
+
+
 def r6_instance_state(ctx, repo, classes):
     """what one benchmark object computes must not depend on how many other objects exist: a mutable attribute that
     lives on the CLASS (class body, or `cls.x = []` in __init_subclass__ / a classmethod) and is filled through `self`
@@ -395,6 +442,8 @@ def run(ctx):
         raise AnalysisError("expected at least 20 single-objective benchmark classes, found %d" % len(classes))
     ctx.rule("R6", "no benchmark keeps per-instance configuration in mutable class-level state")
     r6_instance_state(ctx, repo, classes)
+    ctx.rule("R7", "no fixed-width integer power whose base and exponent both grow with the dimension")
+    r7_integer_powers(ctx, repo, classes)
     tasks = []
     for modname, cls in classes:
         mod = cls.module
